@@ -24,7 +24,7 @@ def model_class():
                 self.register_agent_factory(t, (lambda tt: (lambda i, mod, p: Agent(i, mod, p, tt)))(t))
 
         def begin_round(self, time, sim_round, step):
-            for op in self._script.get(sim_round, ()):
+            for op in self._script.get(int(time), ()):   # batch run: time = round (dt = 1); session step: round is 0, time = step
                 if op[0] == "state":
                     a = self.agent(op[1])
                     if a is not None:
@@ -46,7 +46,8 @@ def model_class():
 
 
 def props_dict(vals):
-    return {n: {"type": PTYPE[n], "value": v} for n, v in vals}
+    """entries (name, value) or (name, value, type): the same name may be Integer for one agent and Double for another"""
+    return {e[0]: {"type": e[2] if len(e) > 2 else PTYPE[e[0]], "value": e[1]} for e in vals}
 
 
 def new_model(case):
@@ -181,7 +182,68 @@ def probe():
     return rows
 
 
-def gen_lean(rows):
+SEL_PROBES = [  # (agent type, states, props, aggs) on the history [(1, PROBE_POPS[0]), (2, PROBE_POPS[1])]
+    (0, [0, 1, 2], ["x"], ["max", "total", "min"]),      # property mode, s2 never occupied by type a
+    (1, [0, 1, 2], [], []),                                # count mode, `active` never occupied by type b
+    (0, [1], ["x"], ["min"]),                              # a state that is occupied at t=1 only: no row at t=2
+]
+
+
+def probe_frames():
+    """real DataCollector statistics of a two-time history -> real HybridRunner.get_df_for_agent; every cell of the
+    returned frame (plus which times have a row, which selected columns exist) as Lean data."""
+    from BPTK_Py import DataCollector
+    from BPTK_Py.scenariorunners.hybrid_runner import HybridRunner
+    dc = DataCollector()
+    for t, snap in enumerate(PROBE_POPS, 1):
+        m = new_model({"script": {}, "stop": 1, "pop": []})
+        for ty, st, es in snap:
+            a = m.create_agent(TYPES[ty], {n: {"type": tp, "value": v} for n, tp, v in es})
+            a.state = STATES[st]
+        dc.collect_agent_statistics(t, m.agents)
+    out = []
+    for ag, sts, ps, aggs in SEL_PROBES:
+        df = HybridRunner(None).get_df_for_agent(dc.statistics(), TYPES[ag], [STATES[i] for i in sts], list(ps), list(aggs))
+        cols = [(st, p, a) for st in sts for p in ps for a in aggs] if ps else [(st, None, None) for st in sts]
+        cells, present = [], []
+        for (st, p, a) in cols:
+            name = STATES[st] + (f"_{p}_{a}" if p else "")
+            present.append(((st, p, a), name in df.columns))
+            for t in (1, 2):
+                if name in df.columns and t in df.index:
+                    v = df[name][t]
+                    if float(v) != int(v):
+                        raise RuntimeError(f"probe frame holds a non-integer {v!r}")
+                    cells.append(((st, p, a, t), int(v)))
+        out.append({"ag": ag, "states": sts, "props": ps, "aggs": aggs, "cells": cells, "present": present,
+                    "index": [(t, t in df.index) for t in (1, 2, 3)]})
+    return out
+
+
+def gen_lean_frames(frames):
+    def i(v):
+        return f"({v})" if v < 0 else str(v)
+    def col(st, p, a):
+        return f"⟨{st}, none⟩" if p is None else f"⟨{st}, some ({PROPS.index(p)}, .{a})⟩"
+    out = ["def selHist : History Int := histOf intOps [(1, probePop0), (2, probePop1)]"]
+    for n, f in enumerate(frames):
+        sel = "⟨[%d], [%s], [%s], [%s]⟩" % (f["ag"], ", ".join(map(str, f["states"])), ", ".join(str(PROPS.index(p)) for p in f["props"]),
+                                           ", ".join("." + a for a in f["aggs"]))
+        aggs = "[%s]" % ", ".join("." + a for a in f["aggs"])
+        out.append(f"def frame{n} : Frame Int := getDf {sel} {aggs} selHist {f['ag']}")
+        out.append(f"def frameCells{n} : List ((Col × Nat) × Int) := [" + ", ".join(
+            f"(({col(st, p, a)}, {t}), {i(v)})" for (st, p, a, t), v in f["cells"]) + "]")
+        out.append(f"def frameIndex{n} : List (Nat × Bool) := [" + ", ".join(f"({t}, {'true' if b else 'false'})" for t, b in f["index"]) + "]")
+        out.append(f"def frameCols{n} : List (Col × Bool) := [" + ", ".join(f"({col(*c)}, {'true' if b else 'false'})" for c, b in f["present"]) + "]")
+        out.append(f"/-- every cell of the frame the real get_df_for_agent returned (selection {n}) is the model's cell; the same times have a row; the same selected columns exist -/")
+        out.append(f"theorem frame_ok{n} : (frameCells{n}.all (fun x => numInt (frame{n}.cell x.1.1 x.1.2) == some x.2) && "
+                   f"frameIndex{n}.all (fun x => decide (x.1 ∈ frame{n}.index) == x.2) && "
+                   f"frameCols{n}.all (fun x => decide (x.1 ∈ frame{n}.cols) == x.2)) = true := by decide")
+        out.append(f"#print axioms frame_ok{n}")
+    return out
+
+
+def gen_lean(rows, frames=()):
     def opt(x, f):
         return "none" if x is None else f"some {f(x)}"
     def i(v):
@@ -205,6 +267,7 @@ def gen_lean(rows):
         out.append(f"/-- what the real collect_agent_statistics returned on probePop{n} is what the model computes -/")
         out.append(f"theorem probe_ok{n} : observed{n}.all (fun x => row (collect intOps probePop{n}) x.1 == x.2) = true := by decide")
         out.append(f"#print axioms probe_ok{n}")
+    out += gen_lean_frames(frames)
     out += ["theorem holds : C13_full := C13_full_proved", "#print axioms holds", "end Bptk.C13.Gen", ""]
     return "\n".join(out)
 
@@ -245,6 +308,57 @@ def gen_case(rng, homogeneous=True, small=False):
         if ops:
             script[str(t)] = ops
     return {"stop": stop, "pop": pop, "script": script, "tprops": {str(k): v for k, v in tprops.items()}, "homogeneous": homogeneous}
+
+
+EDGE_KINDS = ["zero_first", "zero_mid", "equal", "one_per_state", "mixed_types"]
+
+
+def gen_edge_case(rng, kind=None):
+    """populations aimed at the fold's initialisation and comparison steps: a zero / negative zero first in the list
+    (then values of one sign), a zero where the running max is 0, all values equal, one agent per (type, state),
+    the same property Integer for one agent and Double for the next."""
+    kind = kind or rng.choice(EDGE_KINDS)
+    tprops = {0: ["x", "k"], 1: ["x", "k", "y"]}
+    ty = rng.below(2)
+    n = rng.range(2, 6)
+    sign = rng.choice([1, -1])
+    zero = lambda: rng.choice([0.0, -0.0])
+    dy = lambda: rng.range(1, 64) / 8.0
+    script = {}
+    if kind == "zero_first":
+        xs = [zero()] + [sign * dy() for _ in range(n - 1)]
+        ks = [0] + [sign * rng.range(1, 20) for _ in range(n - 1)]
+    elif kind == "zero_mid":
+        m = rng.range(1, n - 1)
+        xs = [-dy() for _ in range(m)] + [zero()] + [dy() for _ in range(n - m)]
+        ks = [-rng.range(1, 20) for _ in range(m)] + [0] + [rng.range(1, 20) for _ in range(n - m)]
+    elif kind == "equal":
+        v, w = rng.choice([0.0, -0.0, dy(), -dy()]), rng.range(-3, 3)
+        xs, ks = [v] * n, [w] * n
+    else:
+        xs = [rng.choice([zero(), dy(), -dy()]) for _ in range(n)]
+        ks = [rng.range(-5, 5) for _ in range(n)]
+    def mk(t, x, k, i):
+        if kind == "mixed_types":      # x: Double / Integer alternating, k: Integer holding an int or a dyadic float
+            vals = [("x", x, "Double") if i % 2 == rng.below(2) else ("x", int(x * 8), "Integer"),
+                    ("k", k, "Integer") if rng.chance(1, 2) else ("k", k / 4.0, "Double")]
+        else:
+            vals = [("x", x), ("k", k)]
+        return (t, vals + ([("y", gen_value(rng, "y"))] if t == 1 else []))
+    pop = [mk(ty, xs[i], ks[i], i) for i in range(len(xs))]
+    if kind == "one_per_state":
+        pop = [mk(i % 2, xs[i % len(xs)], ks[i % len(ks)], i) for i in range(rng.range(2, 6))]
+        script["1"] = [["state", i, (i // 2) % 3] for i in range(len(pop))]
+    else:
+        for _ in range(rng.range(0, 2)):          # a bystander of the other type / another state
+            pop.insert(rng.range(0, len(pop)), mk(1 - ty, dy(), rng.range(-5, 5), 0))
+        if rng.chance(1, 2):
+            script["1"] = [["state", i, rng.below(2)] for i in range(len(pop)) if rng.chance(1, 3)]
+    stop = rng.range(1, 2)
+    if stop == 2 and rng.chance(1, 2):
+        script["2"] = [["value", rng.below(len(pop)), "x", zero()]]
+    return {"stop": stop, "pop": pop, "script": script, "tprops": {str(k): v for k, v in tprops.items()},
+            "homogeneous": True, "edge": kind}
 
 
 # ------------------------------------------------------------------ through bptk.run_scenarios
@@ -370,6 +484,13 @@ def bptk_check(bp, case, sels, req, real_lines):
                              f"the population gives {want!r}", {"case": case, "selection": sel, "format": fmt})
         if per_fmt and len({json.dumps(sorted((repr(k), v) for k, v in c.items())) for c in per_fmt.values()}) != 1 and first is None:
             first = ("formats-disagree", f"df/dict/json disagree for selection {sel}", {"case": case, "selection": sel})
+        # wave 2: the runner model on the whole statistics history, per format
+        if per_fmt:
+            req.append("hclear"); real_lines.append("ok")
+            for t in sorted(snaps):
+                req.append(f"hadd {int(t)} {enc_pop(snaps[t])}"); real_lines.append("ok")
+            for fmt, cells in per_fmt.items():
+                emit_run_reads(req, real_lines, fmt, sel, cells)
         # the model's cells for this selection (df values)
         if "df" in per_fmt:
             for t in sorted(snaps):
@@ -383,6 +504,66 @@ def bptk_check(bp, case, sels, req, real_lines):
                     else:
                         req.append(f"cell {ty} {s_} {PROPS.index(p)} {agg}"); real_lines.append(fbits(v))
     return first
+
+
+def _lst(xs, names):
+    return ",".join(str(names.index(x)) for x in xs) or "-"
+
+
+def run_req(fmt, sel):
+    return f"run {fmt} {_lst(sel['agents'], TYPES)} {_lst(sel['states'], STATES)} {_lst(sel['props'], PROPS)} {','.join(sel['aggs']) or '-'}"
+
+
+def read_req(ag, st, p, agg, t):
+    return f"read {TYPES.index(ag)} {STATES.index(st)} {PROPS.index(p) if p else '-'} {agg or '-'} {int(t)}"
+
+
+def emit_run_reads(req, real_lines, fmt, sel, cells):
+    """model side of one returned result: `run` must return, every selected cell must read the same bits"""
+    req.append(run_req(fmt, sel)); real_lines.append("ok")
+    for (ag, st, p, agg, t), v in cells.items():
+        req.append(read_req(ag, st, p, agg, t)); real_lines.append(fbits(v))
+
+
+def session_check(bp, case, sel, req, real_lines):
+    """the same scenario stepped through begin_session / run_step (HybridRunner.run_scenario_step, json): after every
+    step the cells of all times so far are checked against the reference and handed to the model."""
+    nm = bp.register(case)
+    first = None
+    with contextlib.redirect_stdout(bp.buf):
+        bp.b.begin_session(scenarios=["sc"], scenario_managers=[nm], agents=list(sel["agents"]), agent_states=list(sel["states"]),
+                           agent_properties=list(sel["props"]), agent_property_types=list(sel["aggs"]), starttime=1.0)
+    req.append("hclear"); real_lines.append("ok")
+    steps = 0
+    try:
+        for k in range(1, case["stop"] + 1):
+            try:
+                with contextlib.redirect_stdout(bp.buf):
+                    r = bp.b.run_step()
+            except Exception as e:
+                key = "empty-state-keyerror" if (isinstance(e, KeyError) and any(str(e).strip("'").startswith(s_ + "_") for s_ in sel["states"])) else "run_step-raises"
+                return steps, (key, f"session run_step #{k} (agents={sel['agents']}, agent_states={sel['states']}, agent_properties={sel['props']}, "
+                               f"agent_property_types={sel['aggs']}) raises {type(e).__name__}: {e}", {"case": case, "selection": sel, "format": "session"})
+            steps += 1
+            with contextlib.redirect_stdout(bp.buf):
+                snaps = bp.b.get_scenario(nm, "sc")._snaps
+            times = sorted(snaps)
+            if len(times) != k or float(times[-1]) != float(k):
+                return steps, ("session-times", f"after {k} session steps the statistics were collected at {times}", {"case": case, "selection": sel, "format": "session"})
+            req.append(f"hadd {k} {enc_pop(snaps[times[-1]])}"); real_lines.append("ok")
+            res = r.get(nm) if isinstance(r, dict) else None
+            cells = cells_of(res if isinstance(res, dict) else None, "dict", nm, sel, times)
+            for (ag, st, p, agg, t), v in cells.items():
+                want = ref_cell(snaps[t], TYPES.index(ag), STATES.index(st), p, agg)
+                if want is not None and v != float(want) and first is None:
+                    what = f"{agg} of {p}" if p else "count"
+                    first = ("run_step-cell", f"session step #{k} reports {what} = {v!r} for {ag}/{st} at t={t}, the population gives {want!r}",
+                             {"case": case, "selection": sel, "format": "session"})
+            emit_run_reads(req, real_lines, "json", sel, cells)
+    finally:
+        with contextlib.redirect_stdout(bp.buf):
+            bp.b.end_session()
+    return steps, first
 
 
 def shrink_stat_case(case):
@@ -420,7 +601,10 @@ def run(chk):
     quiet_bptk_logging()
     rows = probe()
     chk.notes["probe"] = [{"population": s, "observed_cells": len(o)} for s, o in rows]
-    ok, why = chk.prove(gen_lean(rows))
+    frames = probe_frames()
+    chk.notes["probe_frames"] = [{"agent": TYPES[f["ag"]], "states": f["states"], "props": f["props"], "aggs": f["aggs"],
+                                  "cells": len(f["cells"]), "rows_at": [t for t, b in f["index"] if b]} for f in frames]
+    ok, why = chk.prove(gen_lean(rows, frames))
     chk.cov["trusted_base"] = [
         "Lean 4.33 kernel; axioms propext, Classical.choice, Quot.sound (audited per run via #print axioms)",
         "hand-written model lean/Bptk/Core/C13.lean of DataCollector.collect_agent_statistics (left fold, carrier-generic) and of the zero-filled "
@@ -428,8 +612,13 @@ def run(chk):
         "= model) and by the correspondence of this check",
         "pandas frame assembly, Series.to_dict and json.dumps in HybridRunner.run_scenario / bptk.run_scenarios are not modelled; they are checked "
         "only through the returned cells (an absent row/column counts as 0)",
-        "value-level theorems are over Int (total = List.sum, min/max = least/greatest element, mean = (sum, number of agents)); for doubles the "
-        "carrier-generic theorem stat_spec fixes the operation tree, and the driver runs the same definitions on Float",
+        "value-level theorems are over Int (C13_int) and over every linearly ordered field, instantiated at ℚ (C13_field / C13_rat: total = sum, "
+        "min/max = least/greatest element, mean = the quotient total/count = sum / number of agents, arithmetic mean between min and max, single-agent "
+        "group); for doubles the carrier-generic theorem stat_spec fixes the operation tree, and the driver runs the same definitions on Float",
+        "hand-written model of HybridRunner.get_df_for_agent / run_scenario / run_scenario_step (getDf, runOut, readOut): pandas' DataFrame(dict of dicts)"
+        ".fillna(0), concat(axis=1).fillna(0), Series.to_dict are modelled by their cell semantics (value written for (time, column), else 0; row index = "
+        "times with an agent in a selected state); tied by the kernel-checked obligations frame_ok* (every cell, the row index and the column set of the "
+        "real get_df_for_agent on a two-time Int history) and by the run/read correspondence in df, dict, json and stepwise sessions",
     ]
     chk.assumptions = ["numeric property = an entry of agent.properties whose type is Integer or Double",
                        "domain of the mean clause: every agent of the (type, state) group carries the property (DESIGN §7 C13); outside it the "
@@ -439,9 +628,11 @@ def run(chk):
     rng = chk.rng.fork("c13")
     # ---- (A) Model.statistics() on generated populations and histories
     cases = [gen_case(rng, homogeneous=rng.chance(3, 4)) for _ in range(150 if chk.quick else 3000)]
+    cases += [gen_edge_case(rng, kind) for kind in EDGE_KINDS for _ in range(12 if chk.quick else 200)]
     req, real_lines, owner = [], [], []
     first = None
-    dist = {"cases": 0, "times": 0, "agents_seen": 0, "groups_with_4_distinct_numbers": 0, "inhomogeneous_groups": 0, "empty_population_times": 0}
+    dist = {"cases": 0, "edge_cases": {k: 0 for k in EDGE_KINDS}, "zero_first_groups": 0, "all_equal_groups": 0, "single_agent_groups": 0,
+            "mixed_type_groups": 0, "times": 0, "agents_seen": 0, "groups_with_4_distinct_numbers": 0, "inhomogeneous_groups": 0, "empty_population_times": 0}
     order_dep = None
     for ci, case in enumerate(cases):
         m = new_model(case)
@@ -462,14 +653,22 @@ def run(chk):
             for ty in range(2):
                 for st in range(3):
                     ms = ref_group(snap, ty, st)
+                    dist["single_agent_groups"] += len(ms) == 1
                     for p in PROPS:
                         vals = [x for es in ms for (n, tp, x) in es if n == p and tp in ("Integer", "Double")]
+                        tps = {tp for es in ms for (n, tp, x) in es if n == p and tp in ("Integer", "Double")}
+                        dist["mixed_type_groups"] += len(tps) == 2
+                        dist["zero_first_groups"] += len(vals) > 1 and vals[0] == 0 and any(v != 0 for v in vals)
+                        dist["all_equal_groups"] += len(vals) > 1 and len(set(vals)) == 1
                         if vals and len(vals) != len(ms):
                             dist["inhomogeneous_groups"] += 1
                         if len(vals) == len(ms) and len(ms) > 1 and len({sum(vals), min(vals), max(vals), sum(vals) / len(vals)}) == 4:
                             dist["groups_with_4_distinct_numbers"] += 1
                             nontriv = True
         dist["cases"] += 1
+        if case.get("edge"):
+            dist["edge_cases"][case["edge"]] += 1
+            nontriv = True
         chk.case(json.dumps(case, sort_keys=True), nontrivial=nontriv,
                  sample=case if (nontriv and len(json.dumps(case)) < 700) else None)
     # out-of-domain evidence: same agents, two orders, different reported mean
@@ -483,10 +682,10 @@ def run(chk):
         owner += [None, None]
     # ---- (B) through bptk.run_scenarios, three formats, generated selections
     nb = 12 if chk.quick else 150
-    bdist = {"scenarios": 0, "selections": 0, "count_mode": 0, "property_mode": 0}
+    bdist = {"scenarios": 0, "selections": 0, "count_mode": 0, "property_mode": 0, "sessions": 0, "session_steps": 0}
     with Bptk() as bp:
-        for _ in range(nb):
-            case = gen_case(rng, homogeneous=True, small=True)
+        for bi in range(nb):
+            case = gen_edge_case(rng) if bi % 3 == 2 else gen_case(rng, homogeneous=True, small=True)
             sels = [gen_selection(rng, case) for _ in range(3)]
             bdist["scenarios"] += 1
             bdist["selections"] += len(sels)
@@ -494,23 +693,34 @@ def run(chk):
             bdist["property_mode"] += sum(1 for s in sels if s["props"])
             n0 = len(req)
             v = bptk_check(bp, case, sels, req, real_lines)
+            # the same scenario as a stepwise session (begin_session / run_step -> HybridRunner.run_scenario_step)
+            nsteps, v2 = session_check(bp, case, sels[bi % 3], req, real_lines)
+            bdist["sessions"] += 1
+            bdist["session_steps"] += nsteps
             owner += [("bptk", case, sels)] * (len(req) - n0)
             chk.case(("bptk", json.dumps(case, sort_keys=True), json.dumps(sels)), nontrivial=True)
-            if v and first is None:
-                first = v
+            if (v or v2) and first is None:
+                first = v or v2
     dist.update(bdist)
     chk.cov["input_distribution"] = dist
-    chk.cov["rule"] = ("seeded random populations (0–8 initial agents of 2 types, properties x,y Double / k Integer / nm String with dyadic, negative and zero "
+    chk.cov["rule"] = ("wave 2: + edge populations (zero / negative zero first in the list followed by values of one sign, a zero where the running max is 0, "
+                       "all values equal, one agent per (type, state), the same property Integer for one agent and Double for the next); every bptk scenario is "
+                       "also handed to the runner model as a statistics history (hadd) and each returned result (df, dict, json; and the json result of every "
+                       "begin_session/run_step step) is compared cell by cell, bit exact, with `run`+`read` of the model; || "
+                       "seeded random populations (0–8 initial agents of 2 types, properties x,y Double / k Integer / nm String with dyadic, negative and zero "
                        "values) and histories over 1–6 recorded times (state changes, value changes, deletions, creations in begin_round); every recorded "
                        "time is compared: Model.statistics() vs model (bit exact) and vs the Python reference; 1/4 of the cases are inhomogeneous "
                        "(model-vs-implementation only for the mean there); plus scenarios through bptk.run_scenarios with 3 random selections of "
                        "agents/states/properties/aggregate types each, in df, dict and json; a case is the canonical JSON; non-trivial = some group of ≥2 "
                        "agents whose total, min, max and mean are four different numbers")
+    dist["runner_model_runs"] = sum(1 for r in req if r.startswith("run "))
+    dist["runner_model_reads"] = sum(1 for r in req if r.startswith("read "))
     model = drive("C13", req) if req else []
-    model = [canon_stats_model(l) if r == "stats" else ("0" * 16 if l == "fill0" else l) for l, r in zip(model, req)] + model[len(req):]
-    real_lines = [("0" * 16 if (r.startswith("cell") and l == fbits(0.0)) else l) for l, r in zip(real_lines, req)]
+    model = [canon_stats_model(l) if r == "stats" else ("0" * 16 if l == "fill0" else ("ok" if (r.startswith("run ") and l.startswith("ok ")) else l))
+             for l, r in zip(model, req)] + model[len(req):]
+    real_lines = [("0" * 16 if (r.startswith("cell") and l in (fbits(0.0), fbits(-0.0))) else l) for l, r in zip(real_lines, req)]
     model = [("0" * 16 if (r.startswith("cell") and l == fbits(-0.0)) else l) for l, r in zip(model, req)]
-    chk.cov["traces_validated_against_impl"] = dist["times"] + bdist["selections"] * 3
+    chk.cov["traces_validated_against_impl"] = dist["times"] + bdist["selections"] * 3 + bdist["session_steps"]
     diff = next((i for i, (a, b) in enumerate(zip(model, real_lines)) if a != b), None)
     if diff is None and len(model) != len(real_lines):
         diff = min(len(model), len(real_lines))
@@ -545,7 +755,10 @@ def replay(path):
         return 1
     if "selection" in r:
         with Bptk() as bp:
-            v = bptk_check(bp, case, [r["selection"]], [], [])
+            if r.get("format") == "session":
+                v = session_check(bp, case, r["selection"], [], [])[1]
+            else:
+                v = bptk_check(bp, case, [r["selection"]], [], [])
         print("case:", json.dumps(case)); print("selection:", r["selection"]); print("violation on the current tree:", v)
         return 1 if v else 0
     m = new_model(case)
